@@ -55,6 +55,10 @@ class C18(Prop):
                 else:
                     rw = rng.choice([{"request-id": "xor1"}, {"request-id": "prev"}, {"community": b"nobody".hex()}, {"request-id": "zero"}])
                 items.append({"k": "genuine", "rewrite": rw, "delay_ns": t})
+            if k and rng.random() < 0.3:
+                # strays just after the deadline (inside a jiffy-rounded re-armed wait)
+                for _ in range(rng.randint(1, 2)):
+                    items.append({"k": "genuine", "rewrite": {"request-id": "xor1"}, "delay_ns": T + rng.choice([1_001, 300_001, 900_001, 2_000_001, 3_500_001])})
             fate = rng.choice(["before", "before", "after", "never", "never"])
             if fate == "before":
                 # anywhere before the overall deadline, also after some strays
@@ -70,7 +74,14 @@ class C18(Prop):
             scripts["%d:1" % opid] = {"replies": items}
             if rng.random() < 0.5:
                 ops.append({"op": "idle", "s": 0, "ns": T * 3 + 1})
-        return {"flavour": family, "agent": agent, "sessions": [sess], "ops": ops, "scripts": scripts, "latency_ns": 1_000_001}
+        cost = rng.choice([0, 0, 0, 1_001, 700_001, 5_000_001])
+        if cost:
+            # keep "before the deadline" matches clear of the time the slow client spends on strays
+            for sc in scripts.values():
+                g = sc["replies"][-1]
+                if g.get("k") == "genuine" and not g.get("rewrite") and g["delay_ns"] < T:
+                    g["delay_ns"] = max(1001, min(g["delay_ns"], T - MARGIN_NS - 16 * cost)) | 1
+        return {"flavour": family, "agent": agent, "sessions": [sess], "ops": ops, "scripts": scripts, "latency_ns": 1_000_001, "recv_cost_ns": cost}
 
     def check(self, run):
         out = []
@@ -107,7 +118,9 @@ class C18(Prop):
                 run.sim.count("probe.strays-consumed")
             if strays_before >= 5:
                 run.sim.count("probe.many-strays")
-            in_time = [m for m in match_arrivals if m[0] <= deadline - MARGIN_NS]
+            cost = run.plan.get("recv_cost_ns", 0)
+            slack = SLACK_NS + cost * (len(ex["rx"]) + 1)
+            in_time = [m for m in match_arrivals if m[0] <= deadline - MARGIN_NS - cost * 15]
             shape.append((strays_before, "in" if in_time else ("late" if match_arrivals else "none")))
             if in_time:
                 run.sim.count("probe.match-before-deadline")
@@ -125,10 +138,10 @@ class C18(Prop):
                 run.sim.count("probe.silent")
             late = res["t1"] - deadline
             if "exc" in res and oracle.exc_is(res["exc"], "TimeoutError"):
-                if late > SLACK_NS:
+                if late > slack:
                     out.append(V("C18.returned-late", "TimeoutError raised %.6f s after the request; timeout is %.3f s (%d stray datagrams)" % ((res["t1"] - t_tx) / 1e9, T / 1e9, strays_before), flavour=run.plan["flavour"]))
             elif "ok" in res:
-                if late > SLACK_NS:
+                if late > slack:
                     out.append(V("C18.returned-late", "call returned a value %.6f s after the request; timeout is %.3f s (%d stray datagrams, match arrived at %.6f s)" % ((res["t1"] - t_tx) / 1e9, T / 1e9, strays_before, (match_arrivals[0][0] - t_tx) / 1e9 if match_arrivals else -1), flavour=run.plan["flavour"]))
             else:
                 out.append(V("C18.wrong-exception", "no matching reply within the timeout: expected TimeoutError, got %s" % _short(res), exc=res["exc"]["exc"]))
